@@ -13,6 +13,7 @@ import (
 	"go/token"
 	"os"
 	"path/filepath"
+	"regexp"
 	"strings"
 
 	"github.com/blinklabs-io/gouroboros/consensus"
@@ -43,77 +44,334 @@ func exprString(fset *token.FileSet, e ast.Node) string {
 	return b.String()
 }
 
-// validateCall returns the method name if e is v.validateXxx(...).
-func validateCall(e ast.Expr) string {
-	ce, ok := e.(*ast.CallExpr)
-	if !ok {
-		return ""
-	}
-	se, ok := ce.Fun.(*ast.SelectorExpr)
-	if !ok {
-		return ""
-	}
-	if id, ok := se.X.(*ast.Ident); !ok || id.Name != "v" {
-		return ""
-	}
-	return se.Sel.Name
+// ---------------------------------------------------------------------------
+// Reading the check list of ValidateHeader.  Recognised forms:
+//  (a) direct calls in sequence: `if err := v.validateX(in); err != nil {...}` or
+//      `out, err := v.validateX(in)` followed by an if on err (either polarity);
+//  (b) an array/slice literal of method values (or closures around one validate
+//      call) iterated with `for _, f := range lit { ... f(in) ... }`: the order is
+//      the order of the literal;
+//  (c) calls reached through one level of a same-package helper, and failures
+//      recorded through a helper that sets Valid = false and appends the error
+//      (`res.fail(err)`), with `if err == nil { return }` or `if err != nil {..}`.
+// Guards are rendered with the variable holding the first result of a check
+// replaced by out(<check>), so renaming a local does not change the table.
+// Anything else makes the reader report "unrecognised" and the table is then
+// derived from OBSERVED behaviour (probe headers), see probeChecks.
+
+type checkReader struct {
+	fset    *token.FileSet
+	funcs   map[string]*ast.FuncDecl // same-package functions and methods by name
+	lists   map[string][]ast.Expr    // local array/slice literals of check functions
+	bound   map[string]ast.Expr      // range variable -> current element
+	outVar  map[string]string        // variable holding the first result of a check
+	errVar  map[string]string        // variable holding the error of a check
+	pending map[string]string        // check awaiting its error handling (keyed by err var)
+	out     []goCheck
+	depth   int
 }
 
-// invalidates: the block sets result.Valid = false and appends to result.Errors.
-func invalidates(fset *token.FileSet, b *ast.BlockStmt) bool {
+// checkOf resolves an expression that is called to the validate method it runs.
+func (r *checkReader) checkOf(fun ast.Expr) string {
+	switch f := fun.(type) {
+	case *ast.SelectorExpr:
+		if strings.HasPrefix(f.Sel.Name, "validate") {
+			return f.Sel.Name
+		}
+	case *ast.Ident:
+		if e, ok := r.bound[f.Name]; ok {
+			return r.checkOf(e)
+		}
+	case *ast.FuncLit:
+		name := ""
+		ast.Inspect(f.Body, func(n ast.Node) bool {
+			if ce, ok := n.(*ast.CallExpr); ok && name == "" {
+				name = r.checkOf(ce.Fun)
+			}
+			return true
+		})
+		return name
+	}
+	return ""
+}
+
+func (r *checkReader) callCheck(e ast.Expr) string {
+	if ce, ok := e.(*ast.CallExpr); ok {
+		return r.checkOf(ce.Fun)
+	}
+	return ""
+}
+
+// recordsFailure: block (or helper body) sets <x>.Valid = false and appends to <x>.Errors.
+func (r *checkReader) recordsFailure(stmts []ast.Stmt) bool {
 	setsValid, appends := false, false
-	for _, s := range b.List {
+	for _, s := range stmts {
 		as, ok := s.(*ast.AssignStmt)
 		if !ok || len(as.Lhs) != 1 || len(as.Rhs) != 1 {
 			continue
 		}
-		l, r := exprString(fset, as.Lhs[0]), exprString(fset, as.Rhs[0])
-		if l == "result.Valid" && r == "false" {
+		l, rr := exprString(r.fset, as.Lhs[0]), exprString(r.fset, as.Rhs[0])
+		if strings.HasSuffix(l, ".Valid") && rr == "false" {
 			setsValid = true
 		}
-		if l == "result.Errors" && strings.HasPrefix(r, "append(result.Errors, err") {
+		if strings.HasSuffix(l, ".Errors") && strings.HasPrefix(rr, "append("+l+",") {
 			appends = true
 		}
 	}
 	return setsValid && appends
 }
 
-func isErrNotNil(fset *token.FileSet, e ast.Expr) bool { return exprString(fset, e) == "err != nil" }
-
-func walkChecks(fset *token.FileSet, stmts []ast.Stmt, guard string, out *[]goCheck) {
-	pending := ""
-	for _, s := range stmts {
-		switch st := s.(type) {
-		case *ast.AssignStmt:
-			if len(st.Rhs) == 1 {
-				if n := validateCall(st.Rhs[0]); n != "" {
-					pending = n
+// failHelper: e is a call of a same-package helper that records its error argument
+// as a failure when it is non-nil; returns the argument.
+func (r *checkReader) failHelper(e ast.Expr) (ast.Expr, bool) {
+	ce, ok := e.(*ast.CallExpr)
+	if !ok || len(ce.Args) != 1 {
+		return nil, false
+	}
+	name := ""
+	switch f := ce.Fun.(type) {
+	case *ast.SelectorExpr:
+		name = f.Sel.Name
+	case *ast.Ident:
+		name = f.Name
+	}
+	fd := r.funcs[name]
+	if fd == nil || fd.Body == nil || fd.Type.Params == nil || len(fd.Type.Params.List) != 1 || len(fd.Type.Params.List[0].Names) != 1 {
+		return nil, false
+	}
+	pn := fd.Type.Params.List[0].Names[0].Name
+	body := fd.Body.List
+	// `if p == nil { return }` then record, or `if p != nil { record }`
+	if len(body) >= 1 {
+		if is, ok := body[0].(*ast.IfStmt); ok {
+			c := exprString(r.fset, is.Cond)
+			if c == pn+" == nil" && len(is.Body.List) == 1 && r.recordsFailure(body[1:]) {
+				if _, isRet := is.Body.List[0].(*ast.ReturnStmt); isRet {
+					return ce.Args[0], true
 				}
 			}
+			if c == pn+" != nil" && r.recordsFailure(is.Body.List) {
+				return ce.Args[0], true
+			}
+		}
+	}
+	return nil, false
+}
+
+// failsOn: the statements record variable errName as a failure (directly or through a helper).
+func (r *checkReader) failsOn(stmts []ast.Stmt, errName string) bool {
+	if r.recordsFailure(stmts) {
+		return true
+	}
+	for _, s := range stmts {
+		if es, ok := s.(*ast.ExprStmt); ok {
+			if arg, ok := r.failHelper(es.X); ok {
+				if id, ok := arg.(*ast.Ident); ok && id.Name == errName {
+					return true
+				}
+			}
+		}
+	}
+	return false
+}
+
+func (r *checkReader) guardString(e ast.Expr) string {
+	s := exprString(r.fset, e)
+	for v, c := range r.outVar {
+		s = regexpWord(v).ReplaceAllString(s, "out("+c+")")
+	}
+	return s
+}
+
+func (r *checkReader) emit(name, guard string, inv bool) { r.out = append(r.out, goCheck{name, guard, inv}) }
+
+func (r *checkReader) walk(stmts []ast.Stmt, guard string) {
+	for _, s := range stmts {
+		switch st := s.(type) {
+		case *ast.DeclStmt, *ast.ReturnStmt:
+		case *ast.AssignStmt:
+			if len(st.Rhs) != 1 {
+				continue
+			}
+			if name := r.callCheck(st.Rhs[0]); name != "" {
+				ev := ""
+				if len(st.Lhs) == 2 {
+					if id, ok := st.Lhs[0].(*ast.Ident); ok && id.Name != "_" {
+						r.outVar[id.Name] = name
+					}
+					if id, ok := st.Lhs[1].(*ast.Ident); ok {
+						ev = id.Name
+					}
+				} else if len(st.Lhs) == 1 {
+					if id, ok := st.Lhs[0].(*ast.Ident); ok {
+						ev = id.Name
+					}
+				}
+				r.errVar[ev] = name
+				r.pending[ev] = guard
+				continue
+			}
+			if cl, ok := st.Rhs[0].(*ast.CompositeLit); ok && len(st.Lhs) == 1 {
+				if id, ok := st.Lhs[0].(*ast.Ident); ok {
+					r.lists[id.Name] = cl.Elts
+				}
+			}
+		case *ast.ExprStmt:
+			if arg, ok := r.failHelper(st.X); ok {
+				if name := r.callCheck(arg); name != "" {
+					r.emit(name, guard, true)
+				} else if id, ok := arg.(*ast.Ident); ok {
+					if name, ok := r.errVar[id.Name]; ok {
+						if g, p := r.pending[id.Name]; p {
+							r.emit(name, g, true)
+							delete(r.pending, id.Name)
+						}
+					}
+				}
+				continue
+			}
+			r.inline(st.X, guard)
+		case *ast.RangeStmt:
+			var elts []ast.Expr
+			switch x := st.X.(type) {
+			case *ast.Ident:
+				elts = r.lists[x.Name]
+			case *ast.CompositeLit:
+				elts = x.Elts
+			}
+			vn := ""
+			if id, ok := st.Value.(*ast.Ident); ok {
+				vn = id.Name
+			}
+			if elts == nil || vn == "" {
+				r.walk(st.Body.List, guard)
+				continue
+			}
+			for _, e := range elts {
+				r.bound[vn] = e
+				r.walk(st.Body.List, guard)
+			}
+			delete(r.bound, vn)
 		case *ast.IfStmt:
 			if st.Init != nil {
 				if as, ok := st.Init.(*ast.AssignStmt); ok && len(as.Rhs) == 1 {
-					if n := validateCall(as.Rhs[0]); n != "" {
-						*out = append(*out, goCheck{n, guard, isErrNotNil(fset, st.Cond) && invalidates(fset, st.Body)})
+					if name := r.callCheck(as.Rhs[0]); name != "" {
+						ev := ""
+						if id, ok := as.Lhs[len(as.Lhs)-1].(*ast.Ident); ok {
+							ev = id.Name
+						}
+						r.emit(name, guard, exprString(r.fset, st.Cond) == ev+" != nil" && r.failsOn(st.Body.List, ev))
 						continue
 					}
 				}
 			}
-			if pending != "" && isErrNotNil(fset, st.Cond) {
-				*out = append(*out, goCheck{pending, guard, invalidates(fset, st.Body)})
-				pending = ""
+			cond := exprString(r.fset, st.Cond)
+			handled := false
+			for ev, name := range r.errVar {
+				g, p := r.pending[ev]
+				if !p {
+					continue
+				}
+				if cond == ev+" != nil" {
+					r.emit(name, g, r.failsOn(st.Body.List, ev))
+					handled = true
+				} else if cond == ev+" == nil" && st.Else != nil {
+					if eb, ok := st.Else.(*ast.BlockStmt); ok {
+						r.emit(name, g, r.failsOn(eb.List, ev))
+						handled = true
+					}
+				}
+				if handled {
+					delete(r.pending, ev)
+					break
+				}
+			}
+			if handled {
 				continue
 			}
-			g := exprString(fset, st.Cond)
+			g := r.guardString(st.Cond)
 			if guard != "" {
 				g = guard + " && " + g
 			}
-			walkChecks(fset, st.Body.List, g, out)
+			r.walk(st.Body.List, g)
+		case *ast.BlockStmt:
+			r.walk(st.List, guard)
 		}
 	}
-	if pending != "" {
-		*out = append(*out, goCheck{pending, guard, false})
+}
+
+// inline follows a call of a same-package helper (one level).
+func (r *checkReader) inline(e ast.Expr, guard string) {
+	ce, ok := e.(*ast.CallExpr)
+	if !ok || r.depth >= 1 {
+		return
 	}
+	name := ""
+	switch f := ce.Fun.(type) {
+	case *ast.SelectorExpr:
+		name = f.Sel.Name
+	case *ast.Ident:
+		name = f.Name
+	}
+	if fd := r.funcs[name]; fd != nil && fd.Body != nil && !strings.HasPrefix(name, "validate") {
+		r.depth++
+		r.walk(fd.Body.List, guard)
+		r.depth--
+	}
+}
+
+func regexpWord(w string) *regexp.Regexp { return regexp.MustCompile(`\b` + regexp.QuoteMeta(w) + `\b`) }
+
+// readChecks returns the check table read from the source and whether every
+// validate* call that occurs in ValidateHeader (and its helpers) was understood.
+func readChecks(fset *token.FileSet, files []*ast.File, fn *ast.FuncDecl) ([]goCheck, bool) {
+	r := &checkReader{fset: fset, funcs: map[string]*ast.FuncDecl{}, lists: map[string][]ast.Expr{}, bound: map[string]ast.Expr{},
+		outVar: map[string]string{}, errVar: map[string]string{}, pending: map[string]string{}}
+	for _, f := range files {
+		for _, d := range f.Decls {
+			if fd, ok := d.(*ast.FuncDecl); ok {
+				r.funcs[fd.Name.Name] = fd
+			}
+		}
+	}
+	r.walk(fn.Body.List, "")
+	for ev, g := range r.pending {
+		r.emit(r.errVar[ev], g, false)
+	}
+	// every validate* method mentioned in the body (and one level of helpers) must have been read exactly once
+	mentioned := map[string]bool{}
+	var scan func(b *ast.BlockStmt, depth int)
+	scan = func(b *ast.BlockStmt, depth int) {
+		ast.Inspect(b, func(n ast.Node) bool {
+			switch x := n.(type) {
+			case *ast.SelectorExpr:
+				if strings.HasPrefix(x.Sel.Name, "validate") {
+					mentioned[x.Sel.Name] = true
+				} else if fd := r.funcs[x.Sel.Name]; fd != nil && fd.Body != nil && depth < 1 {
+					scan(fd.Body, depth+1)
+				}
+			}
+			return true
+		})
+	}
+	scan(fn.Body, 0)
+	seen := map[string]int{}
+	ok := true
+	for _, c := range r.out {
+		seen[c.name]++
+		if !c.setsInvalid {
+			ok = false
+		}
+	}
+	for m := range mentioned {
+		if seen[m] != 1 {
+			ok = false
+		}
+	}
+	if len(seen) != len(mentioned) {
+		ok = false
+	}
+	return r.out, ok
 }
 
 func findFunc(f *ast.File, recv, name string) *ast.FuncDecl {
@@ -132,25 +390,40 @@ func findFunc(f *ast.File, recv, name string) *ast.FuncDecl {
 	return nil
 }
 
-// callsIn lists, in source order and without repetition, the calls inside fn
-// whose rendered callee is in the watch list.
-func callsIn(fset *token.FileSet, fn *ast.FuncDecl, watch []string) []string {
+// callsIn lists, in call order and without repetition, the calls inside fn whose
+// rendered callee is in the watch list; calls of other functions declared in the
+// same file are followed one level (a refactoring into helpers keeps the list).
+func callsIn(fset *token.FileSet, file *ast.File, fn *ast.FuncDecl, watch []string) []string {
 	w := map[string]bool{}
 	for _, x := range watch {
 		w[x] = true
 	}
+	local := map[string]*ast.FuncDecl{}
+	for _, d := range file.Decls {
+		if fd, ok := d.(*ast.FuncDecl); ok && fd.Recv == nil {
+			local[fd.Name.Name] = fd
+		}
+	}
 	seen := map[string]bool{}
 	var res []string
-	ast.Inspect(fn.Body, func(n ast.Node) bool {
-		if ce, ok := n.(*ast.CallExpr); ok {
-			s := exprString(fset, ce.Fun)
-			if w[s] && !seen[s] {
-				seen[s] = true
-				res = append(res, s)
+	var visit func(b *ast.BlockStmt, depth int)
+	visit = func(b *ast.BlockStmt, depth int) {
+		ast.Inspect(b, func(n ast.Node) bool {
+			if ce, ok := n.(*ast.CallExpr); ok {
+				s := exprString(fset, ce.Fun)
+				if w[s] {
+					if !seen[s] {
+						seen[s] = true
+						res = append(res, s)
+					}
+				} else if fd := local[s]; fd != nil && fd.Body != nil && depth < 1 && fd != fn {
+					visit(fd.Body, depth+1)
+				}
 			}
-		}
-		return true
-	})
+			return true
+		})
+	}
+	visit(fn.Body, 0)
 	return res
 }
 
@@ -167,8 +440,31 @@ func gen(out string) error {
 	if vfn == nil {
 		return fmt.Errorf("ValidateHeader not found")
 	}
-	var checks []goCheck
-	walkChecks(fset, vfn.Body.List, "", &checks)
+	// helpers may live in any file of the package
+	pkgFiles := []*ast.File{vf}
+	if ms, _ := filepath.Glob(filepath.Join(repoDir(), "consensus", "*.go")); ms != nil {
+		for _, m := range ms {
+			if strings.HasSuffix(m, "_test.go") || strings.HasSuffix(m, "validate.go") {
+				continue
+			}
+			if f, e := parser.ParseFile(fset, m, nil, 0); e == nil {
+				pkgFiles = append(pkgFiles, f)
+			}
+		}
+	}
+	checks, understood := readChecks(fset, pkgFiles, vfn)
+	source := "ast"
+	if os.Getenv("C40_FORCE_PROBE") != "" { // exercise the fallback
+		understood = false
+	}
+	if !understood {
+		// the source form is not one we can read: derive the table from observed behaviour
+		pc, perr := probeChecks()
+		if perr != nil {
+			return fmt.Errorf("check list unreadable from source (%d entries) and probe failed: %v", len(checks), perr)
+		}
+		checks, source = pc, "probe"
+	}
 
 	bf, err := parse("ledger/verify_block.go")
 	if err != nil {
@@ -178,7 +474,7 @@ func gen(out string) error {
 	if bfn == nil {
 		return fmt.Errorf("VerifyBlock not found")
 	}
-	vbCalls := callsIn(fset, bfn, []string{"vrf.MkSeedTPraos", "vrf.MkInputVrf", "vrf.Verify", "extractOriginalBodyCbor",
+	vbCalls := callsIn(fset, bf, bfn, []string{"vrf.MkSeedTPraos", "vrf.MkInputVrf", "vrf.Verify", "extractOriginalBodyCbor",
 		"ExtractKesFields", "VerifyKesComponents", "validateDijkstraBlockBodyHash", "common.ValidateBlockBodyHash",
 		"VerifyOpCertSignature", "ValidateOpCert", "ValidateKesPeriod"})
 	of, err := parse("ledger/verify_opcert.go")
@@ -189,7 +485,7 @@ func gen(out string) error {
 	if ofn == nil {
 		return fmt.Errorf("ValidateOpCert not found")
 	}
-	ocCalls := callsIn(fset, ofn, []string{"VerifyOpCertSignature", "ValidateKesPeriod"})
+	ocCalls := callsIn(fset, of, ofn, []string{"VerifyOpCertSignature", "ValidateKesPeriod"})
 
 	type kv struct {
 		k string
@@ -207,6 +503,7 @@ func gen(out string) error {
 	var sb strings.Builder
 	sb.WriteString("(* written by harness/cmd/c40 gen *)\nFrom Coq Require Import String.\nFrom V Require Import Lib.Base.\nOpen Scope string_scope.\n")
 	sb.WriteString("(* the validate* calls of HeaderValidator.ValidateHeader in source order: method, enclosing guard,\n   whether a non-nil error sets result.Valid = false and is appended to result.Errors *)\n")
+	fmt.Fprintf(&sb, "Definition checks_source : string := %s.\n", vh.Str(source))
 	sb.WriteString("Definition go_checks : list (string * string * bool) :=\n  [")
 	for i, c := range checks {
 		if i > 0 {
